@@ -58,6 +58,8 @@ def applyEvAp (chns : List Nat) (r : Except Split.Err Split.Meta) (e : String ×
     | ("subset_to", [v]) => .ok (m.set "snsSaveChanSubset" (.subset [Grp.range 0 v.toNat]))
     | ("not_original", []) => .ok (m.set "original_meta" (.atom "False"))
     | ("shank", [v]) => .ok (m.set "NP2.4_shank" (.int v))
+    | ("pop_shank", []) => m.pop "NP2.4_shank"
+    | ("pop_orig", []) => m.pop "snsSaveChanSubset_orig"
     | _ => .ok m
 
 theorem foldl_error (chns : List Nat) (x : Split.Err) (l : List (String × List Int)) :
@@ -83,5 +85,25 @@ theorem ap_meta_eq (m : Split.Meta) (chns : List Nat) (sh size : Nat) :
       | ok toks =>
         have h : ((chns.length : Int) - 1).toNat = chns.length - 1 := by omega
         simp [h]
+
+/-- `NP2Reconstructor.write_metadata` (no up-to-date `.meta` already there): the assignments and `pop`s as written in the
+source, folded over the first shank's header, are the model's `Split.reconMeta`. -/
+theorem recon_meta_eq (m : Split.Meta) (nch size : Nat) :
+    (Src.C03.recon_meta nch size).foldl (applyEvAp []) (.ok m) = Split.reconMeta m nch size := by
+  unfold Src.C03.recon_meta Split.reconMeta
+  simp only [List.foldl, applyEvAp]
+  cases h1 : m.setHead "acqApLfSy" ((nch : Int) - 1) with
+  | error x => simp
+  | ok m1 =>
+    simp only []
+    cases h2 : m1.setHead "snsApLfSy" ((nch : Int) - 1) with
+    | error x => simp
+    | ok m2 =>
+      have h : ((nch : Int) - 1).toNat = nch - 1 := by omega
+      simp only [h]
+      cases h3 : Split.Meta.pop (((m2.set "nSavedChans" (.int nch)).set "fileSizeBytes" (.int size)).set
+          "snsSaveChanSubset" (.subset [Split.Grp.range 0 (nch - 1)])) "NP2.4_shank" with
+      | error x => simp
+      | ok m3 => simp
 
 end IblVerif.Tie.C03
